@@ -34,7 +34,9 @@ RULE = ("histories = up to 10 (thorough: 12) agents of classes A(mesa.Agent), B(
         "StopIteration / GeneratorExit at their k-th call (must propagate, every set unchanged, later operations fine) or mutate the set "
         "(consistency and exactly the user's change), for the in-place and copying forms; agents that are iterable / sized / orderable "
         "with a misleading __lt__; agents with value-based __eq__/__hash__ (set semantics w.r.t. ==); AgentSet subclasses (docstring-only, "
-        "extra constructor argument + overridden add); 23 pairs of equivalent public entry points; the enumerator sweeps every "
+        "extra constructor argument + overridden add); 23 pairs of equivalent public entry points; histories that WRITE unique_id / pos on "
+        "the agents (AgentSet.set on the set / a derived set / a copy, assignment, map or GroupBy.do with setattr) and then run every "
+        "membership-sensitive query against the list of the same objects; the enumerator sweeps every "
         "member list over <= 2 (thorough / broken: 4) agents with a0 in {0,1} x every select / sort / groupby form; "
         "non-trivial = at least 3 operations of which one returns a non-empty answer and at least two slots are filled at the end; "
         "distinct = by SHA1 of the history")
@@ -397,6 +399,11 @@ def _user_cases(rng, tier, broken=False):
                             for _ in range(rng.randint(3, 10))], "args": [rng.randrange(n) for _ in range(10)]})
         out.append({"user": "subclass", "n": n, "vals": [rng.randint(0, 2) for _ in range(n)], "seed": rng.randrange(100),
                     "cls": rng.choice(["doc", "extra", "slots_agents"])})
+        for _k in range(2):
+            out.append({"user": "libattrs", "n": n, "seed": rng.randrange(100), "attr": rng.choice(["unique_id", "unique_id", "pos"]),
+                        "way": rng.choice(["set", "set-derived", "assign", "map-setattr", "gbdo", "set-copy"]),
+                        "values": rng.choice(["const", "shift", "swap", "big"]), "keep": [rng.random() < 0.5 for _ in range(n)],
+                        "picks": [rng.randrange(n) for _ in range(6)]})
         out.append({"user": "entrypoints", "n": n, "vals": [rng.randint(0, 2) for _ in range(n)], "seed": rng.randrange(100),
                     "split": rng.randint(0, n)})
     return out
@@ -703,6 +710,109 @@ def _run_usercode(case, mesa, AgentSet):
             if ids(consistent(st, "subclass")) != ids(list(plain)):
                 fail(f"subclass/{case['cls']}/add-discard", f"{ids(list(st))} vs {ids(list(plain))}")
             obs.append([0, len(st)])
+        elif kind == "libattrs":
+            # the history WRITES attributes the library itself uses on agents (unique_id, pos) - through AgentSet.set on the set, on
+            # a derived set or a copy, plain assignment, map / GroupBy.do with setattr - and then every membership-sensitive query
+            # must still behave like the list of the same OBJECTS (identified by a private tag, not by unique_id)
+            agents = [mesa.Agent(model) for _ in range(case["n"])]
+            for j, a in enumerate(agents):
+                a._tag = j
+            tags = lambda l: [a._tag for a in l]      # noqa: E731
+            st = AgentSet(agents, random=model.random)
+            sub = [a for a, kp in zip(agents, case["keep"]) if kp]
+            der = st.select(lambda a: case["keep"][a._tag])
+            attr, way = case["attr"], case["way"]
+            n = len(agents)
+
+            def value(j):
+                v = {"const": 7, "shift": j + 100, "swap": n - j, "big": 2 ** 70 + j % 2}[case["values"]]
+                return v if attr == "unique_id" else (v, v)
+            target = {"set": st, "set-derived": der, "set-copy": _copy.copy(st)}.get(way)
+            if target is not None:
+                for a in list(target):
+                    target_v = value(0)
+                target.set(attr, value(0))
+                written = {a._tag: value(0) for a in target}
+            elif way == "assign":
+                for a in agents:
+                    setattr(a, attr, value(a._tag))
+                written = {a._tag: value(a._tag) for a in agents}
+            elif way == "map-setattr":
+                st.map(lambda a: setattr(a, attr, value(a._tag)))
+                written = {a._tag: value(a._tag) for a in agents}
+            else:
+                st.groupby(lambda a: a._tag % 2).do(lambda g: [setattr(a, attr, value(a._tag)) for a in g])
+                written = {a._tag: value(a._tag) for a in agents}
+            for a in agents:
+                if a._tag in written and getattr(a, attr) != written[a._tag]:
+                    fail(f"libattrs/{attr}-written/not-written", f"agent {a._tag} has {getattr(a, attr)!r}")
+            shadow = list(agents)
+            tg = f"libattrs/{attr}-written"       # one defect, one key: the first disagreement of a history names it
+            _fail0 = fail
+
+            def fail(key, what, _f=_fail0):       # noqa: F811
+                if not failures:
+                    _f(tg + "/membership-queries-disagree-with-the-list", key.rsplit("/", 1)[-1] + ": " + what)
+
+            def same(got, exp, what):
+                if tags(got) != tags(exp):
+                    fail(f"{tg}/{what}", f"got objects {tags(got)}, the list gives {tags(exp)}")
+            same(consistent(st, tg), shadow, "members-after-write")
+            same(list(der), sub, "derived-members-after-write")
+            if [a in st for a in agents] != [True] * n or [st.index(a) for a in agents] != list(range(n)) or [st.count(a) for a in agents] != [1] * n:
+                fail(f"{tg}/membership", f"in: {[a in st for a in agents]}, index: {[st.index(a) if a in st else None for a in agents]}")
+            if [a in der for a in agents] != case["keep"]:
+                fail(f"{tg}/membership-derived", f"{[a in der for a in agents]} vs {case['keep']}")
+            # set operators and relations with the derived set (identity semantics)
+            insub = {id(a) for a in sub}
+            same(st - der, [a for a in agents if id(a) not in insub], "sub")
+            same(sorted(st & der, key=lambda a: a._tag), sub, "and")
+            same(st | der, agents, "or")
+            same(st ^ der, [a for a in agents if id(a) not in insub], "xor")
+            if (der <= st) is not True or (st == AgentSet(agents[::-1], random=model.random)) is not True or st.isdisjoint(der) != (not sub):
+                fail(f"{tg}/relations", f"<=: {der <= st}, ==: {st == AgentSet(agents[::-1], random=model.random)}, isdisjoint: {st.isdisjoint(der)}")
+            same(st.select(lambda a: a._tag % 2 == 0, at_most=3), [a for a in agents if a._tag % 2 == 0][:3], "select")
+            same(st.sort(lambda a: a._tag % 3, ascending=True), sorted(agents, key=lambda a: a._tag % 3), "sort")
+            if len(written) == n:      # otherwise unwritten agents still have pos None: not orderable, for the list neither
+                same(st.sort(attr, ascending=False), sorted(agents, key=lambda a: getattr(a, attr), reverse=True), "sort-by-written-attribute")
+            gb = [(k, tags(v)) for k, v in st.groupby(attr)]
+            keys = list(dict.fromkeys(getattr(a, attr) for a in agents))
+            if gb != [(k, [a._tag for a in agents if getattr(a, attr) == k]) for k in keys]:
+                fail(f"{tg}/groupby", f"{gb}")
+            if sorted(tags(st.shuffle())) != list(range(n)):
+                fail(f"{tg}/shuffle", f"{tags(st.shuffle())}")
+            same(_copy.copy(st), agents, "copy")
+            # add the same agent / discard / remove / add again / pop
+            for j in case["picks"]:
+                a = agents[j % n]
+                present = any(x is a for x in shadow)
+                st.add(a)
+                if not present:
+                    shadow.append(a)
+                same(list(st), shadow, "add")
+                if j % 3 == 0:
+                    st.discard(a)
+                    shadow = [x for x in shadow if x is not a]
+                    same(list(st), shadow, "discard")
+                    st.discard(a)
+                    same(list(st), shadow, "discard-absent")
+                elif j % 3 == 1:
+                    try:
+                        st.remove(a)
+                    except KeyError:
+                        fail(f"{tg}/remove-present-rejected", f"agent {a._tag} is in the set but remove raised KeyError")
+                    shadow = [x for x in shadow if x is not a]
+                    same(list(st), shadow, "remove")
+                    try:
+                        st.remove(a)
+                        fail(f"{tg}/remove-absent-accepted", f"agent {a._tag}")
+                    except KeyError:
+                        pass
+            if shadow:
+                if st.pop() is not shadow.pop(0):
+                    fail(f"{tg}/pop", "not the first member")
+            same(consistent(st, tg), shadow, "members-at-the-end")
+            obs.append([0, len(shadow)])
         else:   # entrypoints: every public way to do the same thing agrees
             agents = [mesa.Agent(model) for _ in range(case["n"])]
             for a, v in zip(agents, case["vals"]):
